@@ -56,6 +56,19 @@ Theorem C20_gen_script_strip_agrees : forall x, GenTag.script_strip x = TagModel
 Proof. exact gen_script_strip_agrees. Qed.
 Print Assumptions C20_gen_script_strip_agrees.
 
+(* ... and at the API: the key gr_face_find_fref looks a feature up by, and the key gr_face_featureval_for_lang looks a language up by
+   (both regenerated from the bodies of those functions in src/gr_face.cpp), are the same for the space-padded and the zero-padded
+   spelling of a tag -- so the two spellings select the same feature and the same language's values in EVERY Feat / Sill table. *)
+From GR Require Import Model.FeatModel.
+Theorem C20_feature_padding : forall s, all_bytes s -> (length s <= 4)%nat -> last s 0 <> 32 -> Forall (fun b => b <> 0) s ->
+  forall fm, find_fref fm (GenTag.find_fref_key (be32_of (pad_to4 32 s))) = find_fref fm (GenTag.find_fref_key (be32_of (pad_to4 0 s))).
+Proof. intros s H1 H2 H3 H4 fm. rewrite !gen_find_fref_key_agrees, (padding_agree s H1 H2 H3 H4). reflexivity. Qed.
+Print Assumptions C20_feature_padding.
+Theorem C20_language_padding : forall s, all_bytes s -> (length s <= 4)%nat -> last s 0 <> 32 -> Forall (fun b => b <> 0) s ->
+  forall fm langs, clone_for_lang fm langs (GenTag.lang_key (be32_of (pad_to4 32 s))) = clone_for_lang fm langs (GenTag.lang_key (be32_of (pad_to4 0 s))).
+Proof. intros s H1 H2 H3 H4 fm langs. rewrite !gen_lang_key_agrees, (padding_agree s H1 H2 H3 H4). reflexivity. Qed.
+Print Assumptions C20_language_padding.
+
 (* non-vacuity: the hypotheses are met by concrete strings *)
 Example C20_example : str_to_tag ([0x6C; 0x61; 0x74] ++ [0]) = Some 0x6C617400
                       /\ zeropad 0x6C612020 = 0x6C610000 /\ nonzero_bytes [0x6C; 0x61; 0x74].
